@@ -119,6 +119,30 @@ CHECKS["C20"] = ("sweep", "exploration",
     "Trusts LinColor::distance / From<RGBA> as the metric the statement refers to; ties within 1e-5 (table rounding) are not judged.",
     "DESIGN.md §C20")
 
+CHECKS["C04"] = ("sweep", "exploration",
+    "exhaustive enumeration of every sequence family x parameter lattice from an independent protocol printer, plus all pairs/triples of tokens under all <= 2-cut partitions",
+    "An independent printer (model/keytable.rs: golden key table + per-family encoders written from xterm ctlseqs / kitty / fixterms) emits every legacy key, SGR mouse report (128 codes x m/M x coordinate lattice incl. 1 and 65535), "
+    "cursor / size / DECRPM / DA1 / OSC 4,10,11 (every 1-4 digit rgb component) / XTGETTCAP / kitty keyboard (EVERY Unicode scalar value x modifier values, every modifier mask) / kitty image / paste / DECRPSS / SGR (both colour forms, multi-colour) report "
+    "and every printable scalar as text: 8.3 M distinct inputs, 26 M (318 M) decodes. 69 representative tokens are concatenated in all ordered pairs (and triples) and fed under every partition with at most two cuts. "
+    "The decoded event list must equal the printer's intention exactly, arrive with the last byte, and leave nothing buffered.",
+    "The key naming table is taken as specification; ambiguous legacy prefixes are placed only where the statement allows either reading; values between lattice points are not enumerated.",
+    "DESIGN.md §C04")
+CHECKS["C05"] = ("sweep", "exploration",
+    "exhaustive enumeration of commands x parameter lattices x capability configurations, interpreted by an independent ECMA-48/xterm parser",
+    "All 28 TerminalCommand variants x boundary lattices (positions/counts {0,1,2,9,10,99,65535}, signed moves and scrolls over {MIN,MIN+1,-10,-1,0,1,10,MAX}^2, all DEC modes, palette names and colours, every printable title / capability name up to length 2 (3), "
+    "150 528 (3.05 M) faces = colours x all attribute sets x underline styles, 72 576 face modifications) x 12 configurations (3 colour depths x kitty keyboard x glyphs) are encoded by the real TTYEncoder and parsed by model/ecma48.rs "
+    "(byte-level C0/ESC/CSI/OSC/DCS/APC parser + operation decoder written from ECMA-48 / xterm ctlseqs); the operation list must equal the command's denotation with exact parameters, SGR must select exactly the requested rendition from three different "
+    "start renditions, encode never panics; all 2 025 ordered pairs of 45 representative commands in one stream must parse back to the concatenation (self-containedness).",
+    "Trusts the interpreter's reading of the standards; which palette entry is chosen at reduced depth is C20; Gray-depth underline colour may be dropped (no SGR form exists).",
+    "DESIGN.md §C05")
+CHECKS["C06"] = ("sweep + bfs", "model_checking",
+    "complete round-trip sweep encoder->decoder under partitions + explicit-state BFS over SGR histories through the escape-sequence cell writer against a reference SGR state machine",
+    "(a) Every FaceModify and Face of the lattice is encoded in true-colour mode and decoded by TTYCommandDecoder under every partition with at most 2 (1 for the large lattices) cuts; all 1.1 M characters except ESC round-trip as Char. "
+    "(b) BFS with state = current face of a CellWrite sink behind tty_writer(): 600 operations (sequences of 1-2 tokens from a 24-token SGR alphabet the library claims, each followed by a character whose cell face is observed), "
+    "depth 2 (thorough: to the fixpoint, 1 600 states, 960 k transitions), the last sequence written under every <= 2-cut partition and byte by byte; reference: model/sgr.rs (each attribute and colour set/cleared independently, later parameters win, 0 resets).",
+    "SGR 21 and codes the library does not claim are outside the alphabet; underline colour has no slot in Face.",
+    "DESIGN.md §C06")
+
 PENDING = {}
 ALL = ["C%02d" % i for i in range(1, 21)]
 
